@@ -64,6 +64,8 @@ Fixpoint guarded (t : tour) (ops : list top) : Prop :=
   end.
 
 (* ---- list facts *)
+Lemma match_nonempty {A B} (l : list A) (x y : B) : l <> [] -> match l with [] => x | _ :: _ => y end = y.
+Proof. destruct l; congruence. Qed.
 Lemma insert_nth_cons {A} i (a x : A) l : insert_nth (S i) a (x :: l) = x :: insert_nth i a l.
 Proof. reflexivity. Qed.
 Lemma insert_nth_app {A} i (a : A) l e : i <= length l -> insert_nth i a (l ++ e) = insert_nth i a l ++ e.
@@ -222,15 +224,18 @@ Proof.
     - apply filter_In. split; auto. unfold hasjob. rewrite Ea. reflexivity. }
   unfold total. repeat split; try lia.
   - unfold has_jobs. rewrite negb_true_iff, Nat.eqb_neq. intros N. rewrite JC. intros Z.
-    destruct (t_jobs t) as [|j js] eqn:Ej; [auto|].
-    assert (Hj : In j (t_jobs t)) by (rewrite Ej; left; auto). apply J in Hj. destruct Hj as [a [Ha Ea]].
-    assert (In a (filter hasjob (t_acts t))) by (apply filter_In; split; auto; unfold hasjob; rewrite Ea; auto).
-    destruct (filter hasjob (t_acts t)); [auto|discriminate].
+    assert (Hj : exists j, In j (t_jobs t)).
+    { clear - N. destruct (t_jobs t) as [|j js]; [simpl in N; congruence|]. exists j; left; auto. }
+    destruct Hj as [j Hj]. apply J in Hj. destruct Hj as [a [Ha Ea]].
+    assert (Hf : In a (filter hasjob (t_acts t))) by (apply filter_In; split; auto; unfold hasjob; rewrite Ea; auto).
+    clear - Hf Z. destruct (filter hasjob (t_acts t)); [auto|discriminate].
   - unfold has_jobs. rewrite negb_true_iff, Nat.eqb_neq. intros N Z. apply N. rewrite JC.
-    destruct (filter hasjob (t_acts t)) as [|a l] eqn:F; auto.
-    assert (Ha : In a (filter hasjob (t_acts t))) by (rewrite F; left; auto).
-    apply filter_In in Ha. destruct Ha as [Ha Hj]. unfold hasjob in Hj. destruct (a_job a) as [j|] eqn:Ea; [|discriminate].
-    assert (In j (t_jobs t)) by (apply J; exists a; auto). destruct (t_jobs t); [contradiction|discriminate].
+    assert (Hf : forall a, ~ In a (filter hasjob (t_acts t))).
+    { intros a Ha. apply filter_In in Ha. destruct Ha as [Ha Hj]. unfold hasjob in Hj.
+      destruct (a_job a) as [j|] eqn:Ea; [|discriminate].
+      assert (Hi : In j (t_jobs t)) by (apply J; exists a; auto).
+      clear - Hi Z. destruct (t_jobs t); [contradiction|discriminate]. }
+    clear - Hf. destruct (filter hasjob (t_acts t)) as [|a l]; auto. exfalso. apply (Hf a). left; auto.
 Qed.
 
 (* ---- legs() *)
@@ -268,7 +273,7 @@ Proof.
   - (* a single activity *) simpl length. cbn [Nat.eqb Nat.sub Nat.ltb Nat.leb andb].
     destruct (t_closed t); [specialize (C2 eq_refl); simpl in C2; lia|]. cbn. split; auto.
     intros i Hi. assert (i = 0) by lia. subst. reflexivity.
-  - set (acts := a :: b :: l) in *. assert (L2 : 2 <= length acts) by (simpl; lia).
+  - assert (L2 : 2 <= length (a :: b :: l)) by (simpl; lia). remember (a :: b :: l) as acts eqn:Eacts. clear Eacts.
     replace (Nat.eqb (length acts) 1) with false by (symmetry; apply Nat.eqb_neq; lia).
     replace (Nat.ltb 0 (length acts - 1)) with true by (symmetry; apply Nat.ltb_lt; lia).
     destruct (t_closed t); cbn [negb andb].
@@ -433,7 +438,7 @@ Proof.
   assert (INS : forall a i, 1 <= i <= length mid + 1 ->
      abs_res (tstep t (TInsertAt a i)) = if hasjob a then Some (insert_nth (i - 1) a mid, 0) else None).
   { intros a i Hi. cbn [tstep]. unfold insert_at, hasjob. destruct (a_job a) as [j|]; [|reflexivity].
-    destruct (t_acts t) eqn:E; [congruence|]. rewrite <- E.
+    rewrite match_nonempty by auto.
     replace (Nat.leb i (length (t_acts t))) with true by (symmetry; apply Nat.leb_le; lia).
     destruct i as [|i]; [lia|]. cbn [abs_res]. rewrite (insert_abs t mid) by (auto; lia).
     replace (S i - 1) with i by lia. reflexivity. }
@@ -446,7 +451,7 @@ Proof.
     rewrite !andb_true_r. reflexivity.
   - rewrite tstep_insert_last.
     assert (JC : job_activity_count t + 1 = length mid + 1).
-    { unfold job_activity_count. destruct (t_acts t) eqn:E; [congruence|]. rewrite <- E. destruct (t_closed t); lia. }
+    { unfold job_activity_count. rewrite match_nonempty by auto. destruct (t_closed t); lia. }
     rewrite JC, INS by lia. replace (length mid + 1 - 1) with (length mid) by lia. rewrite insert_nth_end. reflexivity.
   - cbn [tstep]. unfold remove at 1. cbn [abs_res].
     change (mkTour (filter (fun a => negb (has_same_job a j)) (t_acts t)) (set_remove j (t_jobs t)) (t_closed t)) with (fst (remove t j)).
@@ -454,7 +459,7 @@ Proof.
   - cbn [tstep]. unfold remove_activity_at. rewrite A. destruct i as [|i]; [reflexivity|]. cbn [nth_error].
     destruct (Nat.lt_ge_cases i (length mid)) as [Hi|Hi].
     + rewrite nth_error_app1 by auto. destruct (nth_error mid i) as [a|] eqn:E; [|reflexivity].
-      destruct (a_job a) as [j|]; [|reflexivity]. cbn [abs_res]. rewrite <- A, (remove_abs t mid j A). reflexivity.
+      destruct (a_job a) as [j|]; [|reflexivity]. cbn [abs_res]. rewrite (remove_abs t mid j A). reflexivity.
     + rewrite nth_error_app2 by auto. replace (nth_error mid i) with (@None act) by (symmetry; apply nth_error_None; auto).
       destruct (t_closed t); cbn [ends].
       * destruct (i - length mid) as [|k]; [reflexivity|]. destruct k; reflexivity.
@@ -483,4 +488,544 @@ Lemma end_unguarded_refuted :
   exists ops t, trun (tour_new true) ops = Some t /\ last (t_acts t) start_act <> end_act.
 Proof.
   exists [TInsertAt (mkAct (Some 0) 2) 2]. eexists. split; [reflexivity|]. cbn. discriminate.
+Qed.
+
+(* ================================================================== slots: deep copies are independent *)
+Lemma set_nth_other {A} (x : A) : forall l k k', k' <> k -> nth_error (set_nth k x l) k' = nth_error l k'.
+Proof.
+  induction l as [|y l IH]; intros k k' N; [destruct k; reflexivity|].
+  destruct k, k'; cbn; auto; try congruence.
+Qed.
+Lemma set_nth_same {A} (x : A) : forall l k, k < length l -> nth_error (set_nth k x l) k = Some x.
+Proof.
+  induction l as [|y l IH]; intros k H; [simpl in H; lia|]. destruct k; cbn; auto. apply IH. simpl in H. lia.
+Qed.
+Lemma set_nth_Forall {A} (P : A -> Prop) (x : A) : forall l k, Forall P l -> P x -> Forall P (set_nth k x l).
+Proof.
+  induction l as [|y l IH]; intros k F Px; [destruct k; constructor|].
+  inversion F; subst. destruct k; cbn; constructor; auto.
+Qed.
+
+Lemma sstep_frame ss o ss' r k :
+  sstep ss o = Some (ss', r, k) -> forall k', k' <> k -> k' < length ss -> nth_error ss' k' = nth_error ss k'.
+Proof.
+  intros H k' N L. destruct o as [k0 o|k0 mode|k0 v]; cbn in H; destruct (nth_error ss k0) as [s|]; try discriminate.
+  - destruct (tstep (s_tour s) o) as [[t' r']|]; [|discriminate]. inversion H; subst. apply set_nth_other; auto.
+  - inversion H; subst. apply nth_error_app1; auto.
+  - inversion H; subst. apply set_nth_other; auto.
+Qed.
+Lemma sstep_copy ss k mode ss' r n :
+  sstep ss (SCopy k mode) = Some (ss', r, n) ->
+  n = length ss /\ exists s s', nth_error ss k = Some s /\ nth_error ss' n = Some s' /\ s_tour s' = s_tour s /\
+                                (mode = 2 -> s_state s' = s_state s).
+Proof.
+  cbn. destruct (nth_error ss k) as [s|] eqn:E; [|discriminate]. intros H; inversion H; subst. split; auto.
+  exists s. eexists. split; auto. split.
+  - rewrite nth_error_app2, Nat.sub_diag by auto. reflexivity.
+  - split; auto. cbn. intros ->. reflexivity.
+Qed.
+Lemma sstep_wf ss o ss' r k :
+  Forall (fun s => WFweak (s_tour s)) ss -> sstep ss o = Some (ss', r, k) -> Forall (fun s => WFweak (s_tour s)) ss'.
+Proof.
+  intros F H. destruct o as [k0 o|k0 mode|k0 v]; cbn in H; destruct (nth_error ss k0) as [s|] eqn:E; try discriminate.
+  - destruct (tstep (s_tour s) o) as [[t' r']|] eqn:S; [|discriminate]. inversion H; subst.
+    apply set_nth_Forall; auto. cbn. eapply wfweak_step; eauto.
+    rewrite Forall_forall in F. apply F. eapply nth_error_In; eauto.
+  - inversion H; subst. apply Forall_app. split; auto. constructor; auto. cbn.
+    rewrite Forall_forall in F. apply F. eapply nth_error_In; eauto.
+  - inversion H; subst. apply set_nth_Forall; auto. cbn. rewrite Forall_forall in F. apply F. eapply nth_error_In; eauto.
+Qed.
+
+(* ================================================================== registry *)
+Ltac eqb_cases :=
+  repeat match goal with
+         | |- context [Nat.eqb ?a ?b] =>
+             let E := fresh "E" in destruct (Nat.eqb a b) eqn:E; [apply Nat.eqb_eq in E|apply Nat.eqb_neq in E]
+         end; subst; try congruence.
+
+Lemma lookup_upd {V} k k' (v : V) m :
+  lookup k' (upd k v m) = if Nat.eqb k' k then (match lookup k m with Some _ => Some v | None => None end) else lookup k' m.
+Proof.
+  induction m as [|[k0 v0] m IH]; cbn.
+  - destruct (Nat.eqb k' k); reflexivity.
+  - destruct (Nat.eqb k0 k) eqn:E0; cbn.
+    + apply Nat.eqb_eq in E0. subst. eqb_cases.
+    + apply Nat.eqb_neq in E0. rewrite IH. eqb_cases.
+Qed.
+Lemma map_fst_upd {V} k (v : V) m : map fst (upd k v m) = map fst m.
+Proof. induction m as [|[k0 v0] m IH]; cbn; auto. destruct (Nat.eqb k0 k); cbn; congruence. Qed.
+Lemma lookup_in_keys {V} k (v : V) m : lookup k m = Some v -> In k (map fst m).
+Proof.
+  induction m as [|[k0 v0] m IH]; cbn; [discriminate|]. destruct (Nat.eqb k0 k) eqn:E; auto.
+  apply Nat.eqb_eq in E. auto.
+Qed.
+Lemma lookup_not_in_keys {V} k (m : list (nat * V)) : lookup k m = None -> ~ In k (map fst m).
+Proof.
+  induction m as [|[k0 v0] m IH]; cbn; auto. destruct (Nat.eqb k0 k) eqn:E; [discriminate|].
+  apply Nat.eqb_neq in E. intros H [H1|H1]; auto. apply IH; auto.
+Qed.
+Lemma lookup_In {V} k (v : V) m : NoDup (map fst m) -> (In (k, v) m <-> lookup k m = Some v).
+Proof.
+  induction m as [|[k0 v0] m IH]; cbn; intros ND; [split; [tauto|discriminate]|].
+  inversion ND; subst. destruct (Nat.eqb k0 k) eqn:E.
+  - apply Nat.eqb_eq in E. subst. split.
+    + intros [H|H]; [congruence|]. exfalso. apply H1. apply (in_map fst) in H. auto.
+    + intros H; inversion H; auto.
+  - apply Nat.eqb_neq in E. rewrite <- IH by auto. split; [intros [H|H]; [congruence|auto]|auto].
+Qed.
+Lemma lookup_app {V} k (m1 m2 : list (nat * V)) :
+  lookup k (m1 ++ m2) = match lookup k m1 with Some v => Some v | None => lookup k m2 end.
+Proof. induction m1 as [|[k0 v0] m IH]; cbn; auto. destruct (Nat.eqb k0 k); auto. Qed.
+Lemma lookup_filter_key {V} (keep : nat -> bool) (m : list (nat * V)) k :
+  lookup k (filter (fun kv => keep (fst kv)) m) = if keep k then lookup k m else None.
+Proof.
+  induction m as [|[k0 v0] m IH]; cbn.
+  - destruct (keep k); reflexivity.
+  - destruct (keep k0) eqn:K0; cbn; destruct (Nat.eqb k0 k) eqn:E; auto.
+    + apply Nat.eqb_eq in E. subst. rewrite K0. reflexivity.
+    + apply Nat.eqb_eq in E. subst. rewrite IH, K0. reflexivity.
+Qed.
+Lemma lookup_map_val {V W} (f : V -> W) (m : list (nat * V)) k :
+  lookup k (map (fun kv => (fst kv, f (snd kv))) m) = option_map f (lookup k m).
+Proof. induction m as [|[k0 v0] m IH]; cbn; auto. destruct (Nat.eqb k0 k); auto. Qed.
+Lemma map_fst_map_val {V W} (f : V -> W) (m : list (nat * V)) :
+  map fst (map (fun kv => (fst kv, f (snd kv))) m) = map fst m.
+Proof. induction m as [|[k0 v0] m IH]; cbn; congruence. Qed.
+
+Lemma set_mem_remove x a s : set_mem x (set_remove a s) = set_mem x s && negb (Nat.eqb x a).
+Proof.
+  apply eq_true_iff_eq. rewrite andb_true_iff, negb_true_iff, Nat.eqb_neq, !set_mem_In, set_remove_In. tauto.
+Qed.
+Lemma set_mem_filter x keep s : set_mem x (filter keep s) = set_mem x s && keep x.
+Proof. apply eq_true_iff_eq. rewrite andb_true_iff, !set_mem_In, filter_In. tauto. Qed.
+Lemma set_mem_cons x a s : set_mem x (a :: s) = Nat.eqb x a || set_mem x s.
+Proof. reflexivity. Qed.
+
+(* abstraction: the registry is the pair (known actors, free actors) *)
+Definition known (r : reg) (a : nat) : bool := match lookup a (r_index r) with Some _ => true | None => false end.
+Definition availb (r : reg) (a : nat) : bool :=
+  match lookup a (r_index r) with
+  | Some g => match lookup g (r_avail r) with Some s => set_mem a s | None => false end
+  | None => false
+  end.
+
+Definition WFReg (r : reg) : Prop :=
+  NoDup (map fst (r_avail r)) /\
+  (forall g s, lookup g (r_avail r) = Some s -> NoDup s /\ forall a, In a s -> lookup a (r_index r) = Some g) /\
+  (forall a g, lookup a (r_index r) = Some g -> lookup g (r_avail r) <> None) /\
+  (forall a, In a (r_all r) <-> known r a = true).
+
+Lemma available_iff r a : WFReg r -> (In a (available r) <-> availb r a = true).
+Proof.
+  intros [ND [W2 _]]. unfold available. rewrite in_flat_map. split.
+  - intros [[g s] [Hin Ha]]. cbn in Ha. apply lookup_In in Hin; auto. destruct (W2 g s Hin) as [_ Hidx].
+    unfold availb. rewrite (Hidx a Ha), Hin. apply set_mem_In; auto.
+  - unfold availb. destruct (lookup a (r_index r)) as [g|]; [|discriminate].
+    destruct (lookup g (r_avail r)) as [s|] eqn:E; [|discriminate]. intros H. exists (g, s). split.
+    + apply lookup_In; auto.
+    + apply set_mem_In; auto.
+Qed.
+Lemma availb_known r a : availb r a = true -> known r a = true.
+Proof. unfold availb, known. destruct (lookup a (r_index r)); auto. Qed.
+Lemma available_NoDup_member r a : WFReg r -> In a (available r) -> In a (r_all r).
+Proof. intros W H. apply W. apply availb_known. apply available_iff; auto. Qed.
+
+Lemma use_actor_spec r a r' b :
+  WFReg r -> use_actor r a = (r', b) ->
+  WFReg r' /\ b = availb r a /\ (forall x, availb r' x = availb r x && negb (b && Nat.eqb x a)) /\
+  r_index r' = r_index r /\ r_all r' = r_all r.
+Proof.
+  intros W H. pose proof W as [ND [W2 [W3 W4]]]. unfold use_actor in H. unfold availb at 1.
+  assert (SAME : forall x, availb r x = availb r x && negb (false && Nat.eqb x a)) by (intros; cbn; rewrite andb_true_r; auto).
+  destruct (lookup a (r_index r)) as [g|] eqn:Ei; [|inversion H; subst; auto 6].
+  destruct (lookup g (r_avail r)) as [s|] eqn:Eg; [|inversion H; subst; auto 6].
+  destruct (set_mem a s) eqn:Em; [|inversion H; subst; auto 6].
+  inversion H; subst; clear H. destruct (W2 g s Eg) as [NDs Hs].
+  split; [|split; [auto|split; [|auto]]].
+  - unfold WFReg, known. cbn [r_avail r_index r_all]. rewrite map_fst_upd. repeat split; auto.
+    + rewrite lookup_upd, Eg in H. destruct (Nat.eqb g0 g) eqn:E.
+      * inversion H; subst. apply set_remove_NoDup; auto.
+      * apply (W2 g0 s0 H).
+    + intros x Hx. rewrite lookup_upd, Eg in H. destruct (Nat.eqb g0 g) eqn:E.
+      * apply Nat.eqb_eq in E. inversion H; subst. apply set_remove_In in Hx. apply Hs. tauto.
+      * apply (W2 g0 s0 H); auto.
+    + intros x gx Hx. rewrite lookup_upd, Eg. destruct (Nat.eqb gx g); [discriminate|]. apply (W3 x gx Hx).
+    + apply W4.
+    + apply W4.
+  - intros x. unfold availb. cbn [r_avail r_index]. destruct (lookup x (r_index r)) as [gx|] eqn:Ex; [|reflexivity].
+    rewrite lookup_upd, Eg. cbn [andb]. destruct (Nat.eqb gx g) eqn:E.
+    + apply Nat.eqb_eq in E. subst. rewrite Eg. apply set_mem_remove.
+    + apply Nat.eqb_neq in E. destruct (Nat.eqb x a) eqn:Ea.
+      * apply Nat.eqb_eq in Ea. subst. congruence.
+      * cbn. rewrite andb_true_r. reflexivity.
+Qed.
+
+Lemma free_actor_spec r a r' b :
+  WFReg r -> free_actor r a = (r', b) ->
+  WFReg r' /\ b = known r a && negb (availb r a) /\ (forall x, availb r' x = availb r x || (b && Nat.eqb x a)) /\
+  r_index r' = r_index r /\ r_all r' = r_all r.
+Proof.
+  intros W H. pose proof W as [ND [W2 [W3 W4]]]. unfold free_actor in H. unfold availb at 1, known at 1.
+  assert (SAME : forall x, availb r x = availb r x || (false && Nat.eqb x a)) by (intros; cbn; rewrite orb_false_r; auto).
+  destruct (lookup a (r_index r)) as [g|] eqn:Ei; [|inversion H; subst; auto 6].
+  destruct (lookup g (r_avail r)) as [s|] eqn:Eg; [|exfalso; apply (W3 a g Ei Eg)].
+  destruct (set_mem a s) eqn:Em; [inversion H; subst; auto 6|].
+  inversion H; subst; clear H. destruct (W2 g s Eg) as [NDs Hs].
+  split; [|split; [auto|split; [|auto]]].
+  - unfold WFReg, known. cbn [r_avail r_index r_all]. rewrite map_fst_upd. repeat split; auto.
+    + rewrite lookup_upd, Eg in H. destruct (Nat.eqb g0 g) eqn:E.
+      * inversion H; subst. constructor; auto. apply set_mem_false; auto.
+      * apply (W2 g0 s0 H).
+    + intros x Hx. rewrite lookup_upd, Eg in H. destruct (Nat.eqb g0 g) eqn:E.
+      * apply Nat.eqb_eq in E. inversion H; subst. destruct Hx as [<-|Hx]; auto.
+      * apply (W2 g0 s0 H); auto.
+    + intros x gx Hx. rewrite lookup_upd, Eg. destruct (Nat.eqb gx g); [discriminate|]. apply (W3 x gx Hx).
+    + apply W4.
+    + apply W4.
+  - intros x. unfold availb. cbn [r_avail r_index]. cbn [andb]. destruct (lookup x (r_index r)) as [gx|] eqn:Ex.
+    + rewrite lookup_upd, Eg. destruct (Nat.eqb gx g) eqn:E.
+      * apply Nat.eqb_eq in E. subst. rewrite Eg, set_mem_cons. apply orb_comm.
+      * apply Nat.eqb_neq in E. destruct (Nat.eqb x a) eqn:Ea.
+        -- apply Nat.eqb_eq in Ea. subst. congruence.
+        -- rewrite orb_false_r. reflexivity.
+    + destruct (Nat.eqb x a) eqn:Ea; auto. apply Nat.eqb_eq in Ea. subst. congruence.
+Qed.
+
+Lemma deep_slice_spec r keep :
+  WFReg r ->
+  WFReg (deep_slice r keep) /\ (forall x, availb (deep_slice r keep) x = availb r x && keep x) /\
+  (forall x, known (deep_slice r keep) x = known r x && keep x) /\ r_all (deep_slice r keep) = filter keep (r_all r).
+Proof.
+  intros [ND [W2 [W3 W4]]].
+  assert (K : forall x, known (deep_slice r keep) x = known r x && keep x).
+  { intros x. unfold known. cbn [deep_slice r_index]. rewrite lookup_filter_key. destruct (keep x); [|rewrite andb_false_r; auto].
+    rewrite andb_true_r. reflexivity. }
+  split; [|split; [|split; auto]].
+  - unfold WFReg. cbn [deep_slice r_avail r_index r_all]. rewrite map_fst_map_val. repeat split; auto.
+    + rewrite lookup_map_val in H. destruct (lookup g (r_avail r)) as [s0|] eqn:E; [|discriminate]. inversion H; subst.
+      apply NoDup_filter. apply (W2 g s0 E).
+    + intros a Ha. rewrite lookup_map_val in H. destruct (lookup g (r_avail r)) as [s0|] eqn:E; [|discriminate]. inversion H; subst.
+      apply filter_In in Ha. destruct Ha as [Ha Ka]. rewrite lookup_filter_key, Ka. apply (W2 g s0 E); auto.
+    + intros a g Ha. rewrite lookup_filter_key in Ha. destruct (keep a); [|discriminate].
+      rewrite lookup_map_val. specialize (W3 a g Ha). destruct (lookup g (r_avail r)); [discriminate|congruence].
+    + intros Ha. apply filter_In in Ha. destruct Ha as [Ha Ka]. rewrite K, Ka, andb_true_r. apply W4; auto.
+    + intros Ha. rewrite K in Ha. apply andb_true_iff in Ha. apply filter_In. split; [apply W4|]; tauto.
+  - intros x. unfold availb. cbn [deep_slice r_avail r_index]. rewrite lookup_filter_key.
+    destruct (keep x) eqn:Kx; [|rewrite andb_false_r; auto]. rewrite andb_true_r.
+    destruct (lookup x (r_index r)) as [g|]; auto. rewrite lookup_map_val.
+    destruct (lookup g (r_avail r)) as [s|]; auto. cbn. rewrite set_mem_filter, Kx, andb_true_r. reflexivity.
+Qed.
+
+(* ---- Registry::new on the groups built by Fleet::new *)
+Lemma NoDup_app_one {A} (l : list A) x : NoDup l -> ~ In x l -> NoDup (l ++ [x]).
+Proof.
+  induction l as [|y l IH]; intros ND N; cbn.
+  - constructor; [intros []|constructor].
+  - inversion ND; subst. constructor.
+    + rewrite in_app_iff. cbn. intros [H|[H|[]]]; auto. subst. apply N; left; auto.
+    + apply IH; auto. intros H; apply N; right; auto.
+Qed.
+Definition GInv (m : list (nat * list nat)) (n : nat) : Prop :=
+  NoDup (map fst m) /\
+  (forall g s, lookup g m = Some s -> NoDup s /\ forall a, In a s -> a < n) /\
+  (forall a, a < n -> exists g s, lookup g m = Some s /\ In a s) /\
+  (forall a g1 s1 g2 s2, lookup g1 m = Some s1 -> In a s1 -> lookup g2 m = Some s2 -> In a s2 -> g1 = g2).
+
+Lemma group_add_inv g n m : GInv m n -> GInv (group_add g n m) (S n).
+Proof.
+  intros [ND [G2 [G3 G4]]]. unfold group_add. destruct (lookup g m) as [s|] eqn:Eg.
+  - assert (LK : forall g', lookup g' (upd g (set_add n s) m) = if Nat.eqb g' g then Some (set_add n s) else lookup g' m).
+    { intros g'. rewrite lookup_upd, Eg. reflexivity. }
+    destruct (G2 g s Eg) as [NDs Ls].
+    unfold GInv. rewrite map_fst_upd. split; auto. split; [|split].
+    + intros g' s' H. rewrite LK in H. destruct (Nat.eqb g' g) eqn:E.
+      * inversion H; subst. split; [apply set_add_NoDup; auto|].
+        intros a Ha. apply set_add_In in Ha. destruct Ha as [->|Ha]; [lia|]. specialize (Ls a Ha). lia.
+      * destruct (G2 g' s' H) as [N L]. split; auto. intros a Ha. specialize (L a Ha). lia.
+    + intros a Ha. destruct (Nat.eq_dec a n) as [->|Na].
+      * exists g, (set_add n s). rewrite LK, Nat.eqb_refl. split; auto. apply set_add_In; auto.
+      * destruct (G3 a) as [g0 [s0 [L0 I0]]]; [lia|]. destruct (Nat.eqb g0 g) eqn:E.
+        -- apply Nat.eqb_eq in E. subst. exists g, (set_add n s). rewrite LK, Nat.eqb_refl. split; auto.
+           apply set_add_In. right. congruence.
+        -- exists g0, s0. rewrite LK, E. auto.
+    + intros a g1 s1 g2 s2 H1 I1 H2 I2. rewrite LK in H1, H2.
+      destruct (Nat.eqb g1 g) eqn:E1, (Nat.eqb g2 g) eqn:E2.
+      * apply Nat.eqb_eq in E1, E2. congruence.
+      * apply Nat.eqb_eq in E1. subst. inversion H1; subst. apply set_add_In in I1. destruct I1 as [->|I1].
+        -- destruct (G2 g2 s2 H2) as [_ L]. specialize (L n I2). lia.
+        -- apply (G4 a g s g2 s2); auto.
+      * apply Nat.eqb_eq in E2. subst. inversion H2; subst. apply set_add_In in I2. destruct I2 as [->|I2].
+        -- destruct (G2 g1 s1 H1) as [_ L]. specialize (L n I1). lia.
+        -- apply (G4 a g1 s1 g s); auto.
+      * apply (G4 a g1 s1 g2 s2); auto.
+  - assert (LK : forall g', lookup g' (m ++ [(g, [n])]) =
+                          match lookup g' m with Some s => Some s | None => if Nat.eqb g g' then Some [n] else None end).
+    { intros g'. rewrite lookup_app. reflexivity. }
+    unfold GInv. split; [|split; [|split]].
+    + rewrite map_app. cbn. apply NoDup_app_one; auto. apply lookup_not_in_keys; auto.
+    + intros g' s' H. rewrite LK in H. destruct (lookup g' m) as [s0|] eqn:E0.
+      * inversion H; subst. destruct (G2 g' s' E0) as [N L]. split; auto. intros a Ha. specialize (L a Ha). lia.
+      * destruct (Nat.eqb g g'); [|discriminate]. inversion H; subst. split.
+        -- constructor; [intros []|constructor].
+        -- intros a [<-|[]]. lia.
+    + intros a Ha. destruct (Nat.eq_dec a n) as [->|Na].
+      * exists g, [n]. rewrite LK, Eg, Nat.eqb_refl. split; auto. left; auto.
+      * destruct (G3 a) as [g0 [s0 [L0 I0]]]; [lia|]. exists g0, s0. rewrite LK, L0. auto.
+    + intros a g1 s1 g2 s2 H1 I1 H2 I2. rewrite LK in H1, H2.
+      destruct (lookup g1 m) as [t1|] eqn:E1, (lookup g2 m) as [t2|] eqn:E2.
+      * inversion H1; inversion H2; subst. apply (G4 a g1 s1 g2 s2); auto.
+      * inversion H1; subst. destruct (Nat.eqb g g2); [|discriminate]. inversion H2; subst.
+        destruct I2 as [<-|[]]. destruct (G2 g1 s1 E1) as [_ L]. specialize (L n I1). lia.
+      * inversion H2; subst. destruct (Nat.eqb g g1); [|discriminate]. inversion H1; subst.
+        destruct I1 as [<-|[]]. destruct (G2 g2 s2 E2) as [_ L]. specialize (L n I2). lia.
+      * destruct (Nat.eqb g g1) eqn:F1; [|discriminate]. destruct (Nat.eqb g g2) eqn:F2; [|discriminate].
+        apply Nat.eqb_eq in F1, F2. congruence.
+Qed.
+
+Lemma fleet_groups_inv gs : forall a m, GInv m a -> GInv (fleet_groups a gs m) (a + length gs).
+Proof.
+  induction gs as [|g gs IH]; intros a m G; cbn.
+  - rewrite Nat.add_0_r. auto.
+  - replace (a + S (length gs)) with (S a + length gs) by lia. apply IH. apply group_add_inv; auto.
+Qed.
+Lemma GInv_nil : GInv [] 0.
+Proof.
+  unfold GInv. cbn. split; [constructor|]. split; [discriminate|]. split; [intros; lia|discriminate].
+Qed.
+
+Definition idx_of (m : list (nat * list nat)) : list (nat * nat) :=
+  flat_map (fun gs' => map (fun a => (a, fst gs')) (snd gs')) m.
+Lemma lookup_const_map (a g : nat) (s : list nat) : lookup a (map (fun x => (x, g)) s) = if set_mem a s then Some g else None.
+Proof.
+  induction s as [|x s IH]; cbn; auto. rewrite IH. rewrite (Nat.eqb_sym x a). destruct (Nat.eqb a x); reflexivity.
+Qed.
+Lemma idx_of_sound m a g : lookup a (idx_of m) = Some g -> exists s, In (g, s) m /\ In a s.
+Proof.
+  induction m as [|[g0 s0] m IH]; cbn; [discriminate|]. rewrite lookup_app, lookup_const_map.
+  destruct (set_mem a s0) eqn:E.
+  - intros H; inversion H; subst. exists s0. split; auto. apply set_mem_In; auto.
+  - intros H. destruct (IH H) as [s [Hi Ha]]. exists s; auto.
+Qed.
+Lemma idx_of_complete m a g s : In (g, s) m -> In a s -> lookup a (idx_of m) <> None.
+Proof.
+  induction m as [|[g0 s0] m IH]; cbn; [tauto|]. rewrite lookup_app, lookup_const_map.
+  intros [H|H] Ha.
+  - inversion H; subst. apply set_mem_In in Ha. rewrite Ha. discriminate.
+  - destruct (set_mem a s0); [discriminate|]. apply IH; auto.
+Qed.
+
+Lemma reg_new_groups gs : GInv (r_avail (reg_new gs)) (length gs).
+Proof. apply (fleet_groups_inv gs 0 []). apply GInv_nil. Qed.
+
+Lemma reg_new_index gs g s a :
+  lookup g (r_avail (reg_new gs)) = Some s -> In a s -> lookup a (r_index (reg_new gs)) = Some g.
+Proof.
+  pose proof (reg_new_groups gs) as [ND [G2 [G3 G4]]]. intros Hg Ha.
+  change (r_index (reg_new gs)) with (idx_of (r_avail (reg_new gs))).
+  destruct (lookup a (idx_of (r_avail (reg_new gs)))) as [g'|] eqn:E.
+  - destruct (idx_of_sound _ _ _ E) as [s' [Hi Ha']]. apply lookup_In in Hi; auto.
+    f_equal. apply (G4 a g' s' g s); auto.
+  - exfalso. apply lookup_In in Hg; auto. apply (idx_of_complete _ a g s Hg Ha E).
+Qed.
+
+Lemma reg_new_wf gs : WFReg (reg_new gs).
+Proof.
+  pose proof (reg_new_groups gs) as G. pose proof G as [ND [G2 [G3 G4]]]. unfold WFReg. split; auto. split; [|split].
+  - intros g s H. split; [apply (G2 g s H)|]. intros a Ha. apply (reg_new_index gs g s a); auto.
+  - intros a g H. change (r_index (reg_new gs)) with (idx_of (r_avail (reg_new gs))) in H.
+    destruct (idx_of_sound _ _ _ H) as [s [Hi _]]. apply lookup_In in Hi; auto. congruence.
+  - intros a. change (r_all (reg_new gs)) with (seq 0 (length gs)). rewrite in_seq. unfold known. split.
+    + intros [_ Ha]. destruct (G3 a Ha) as [g [s [Hg Hs]]]. rewrite (reg_new_index gs g s a); auto.
+    + destruct (lookup a (r_index (reg_new gs))) as [g|] eqn:E; [|discriminate]. intros _.
+      change (r_index (reg_new gs)) with (idx_of (r_avail (reg_new gs))) in E.
+      destruct (idx_of_sound _ _ _ E) as [s [Hi Ha]]. apply lookup_In in Hi; auto.
+      destruct (G2 g s Hi) as [_ L]. specialize (L a Ha). lia.
+Qed.
+
+Lemma reg_new_all_free gs a : availb (reg_new gs) a = Nat.ltb a (length gs) /\ known (reg_new gs) a = Nat.ltb a (length gs).
+Proof.
+  pose proof (reg_new_wf gs) as W. pose proof (reg_new_groups gs) as [ND [G2 [G3 G4]]].
+  destruct (Nat.ltb a (length gs)) eqn:L.
+  - apply Nat.ltb_lt in L. destruct (G3 a L) as [g [s [Hg Hs]]]. unfold availb, known.
+    rewrite (reg_new_index gs g s a Hg Hs), Hg. split; auto. apply set_mem_In; auto.
+  - apply Nat.ltb_ge in L. assert (K : known (reg_new gs) a = false).
+    { destruct (known (reg_new gs) a) eqn:K; auto. apply W in K.
+      change (r_all (reg_new gs)) with (seq 0 (length gs)) in K. apply in_seq in K. lia. }
+    split; auto. destruct (availb (reg_new gs) a) eqn:A; auto. apply availb_known in A. congruence.
+Qed.
+
+(* ---- next(): only available actors are offered, one per non-empty group *)
+Lemma next_with_sound m : forall picks x, In x (next_with picks m) -> In x (flat_map snd m).
+Proof.
+  induction m as [|[g s] m IH]; intros picks x H; cbn [next_with flat_map snd] in *; [contradiction|].
+  apply in_app_iff. destruct (Nat.ltb (length s) 2).
+  - apply in_app_iff in H. destruct H as [H|H]; [left|right; eauto].
+    destruct s; cbn in H; [contradiction|]. destruct H as [<-|[]]. left; auto.
+  - destruct picks as [|p ps]; apply in_app_iff in H; destruct H as [H|H]; try (right; eauto; fail); left.
+    + destruct s; cbn in H; [contradiction|]. destruct H as [<-|[]]. left; auto.
+    + assert (In x (skipn p s)). { destruct (skipn p s); cbn in H; [contradiction|]. destruct H as [<-|[]]. left; auto. }
+      rewrite <- (firstn_skipn p s). apply in_app_iff; auto.
+Qed.
+Fixpoint picks_ok (picks : list nat) (m : list (nat * list nat)) : Prop :=
+  match m with
+  | [] => True
+  | (_, s) :: r => if Nat.ltb (length s) 2 then picks_ok picks r
+                   else match picks with p :: ps => p < length s /\ picks_ok ps r | [] => picks_ok [] r end
+  end.
+Definition nonempty_groups (m : list (nat * list nat)) : nat :=
+  length (filter (fun gs => negb (Nat.eqb (length (snd gs)) 0)) m).
+Lemma next_with_complete m : forall picks, picks_ok picks m -> length (next_with picks m) = nonempty_groups m.
+Proof.
+  unfold nonempty_groups. induction m as [|[g s] m IH]; intros picks H; cbn [next_with picks_ok filter snd] in *; auto.
+  destruct (Nat.ltb (length s) 2) eqn:L.
+  - rewrite app_length, (IH picks H). destruct s as [|x [|y s]]; cbn in *; auto; discriminate.
+  - apply Nat.ltb_ge in L. replace (Nat.eqb (length s) 0) with false by (symmetry; apply Nat.eqb_neq; lia). cbn [negb length].
+    destruct picks as [|p ps].
+    + rewrite app_length, (IH [] H). destruct s; cbn in *; [lia|reflexivity].
+    + destruct H as [Hp H]. rewrite app_length, (IH ps H), firstn_length, skipn_length. lia.
+Qed.
+
+(* ---- registry context and histories *)
+Definition WFctx (c : rctx) : Prop := WFReg (c_reg c) /\ forall x, set_mem x (c_idx c) = known (c_reg c) x.
+
+Lemma rctx_new_wf gs : WFctx (rctx_new gs).
+Proof.
+  split; [apply reg_new_wf|]. intros x. unfold rctx_new. cbn [c_idx c_reg]. apply eq_true_iff_eq. rewrite set_mem_In. apply (reg_new_wf gs).
+Qed.
+
+Lemma get_route_spec c a c' b :
+  WFctx c -> get_route c a = (c', b) -> exists r', use_actor (c_reg c) a = (r', b) /\ c' = mkRctx r' (c_idx c).
+Proof.
+  intros [W I] H. unfold get_route in H. destruct (use_actor (c_reg c) a) as [r' b'] eqn:U.
+  inversion H; subst. exists r'. split; auto. f_equal.
+  destruct (use_actor_spec _ _ _ _ W U) as [_ [-> _]]. destruct (availb (c_reg c) a) eqn:A; auto.
+  rewrite I, (availb_known _ _ A). reflexivity.
+Qed.
+
+Inductive hop := HOp (o : rop) | HSlice (keep : list nat).
+Definition hstep (c : rctx) (h : hop) : rctx * bool :=
+  match h with
+  | HOp o => rstep c o
+  | HSlice keep => (ctx_slice c (fun a => set_mem a keep), false)
+  end.
+Fixpoint hrun (c : rctx) (hs : list hop) : rctx * list (hop * bool) :=
+  match hs with
+  | [] => (c, [])
+  | h :: r => let '(c', b) := hstep c h in let '(c'', tr) := hrun c' r in (c'', (h, b) :: tr)
+  end.
+
+Definition acquires (h : hop) (a : nat) : bool :=
+  match h with HOp (RUse x) => Nat.eqb x a | HOp (RGet x) => Nat.eqb x a | _ => false end.
+Definition releases (h : hop) (a : nat) : bool :=
+  match h with HOp (RFree x) => Nat.eqb x a | _ => false end.
+Definition held_next (a : nat) (held : bool) (hb : hop * bool) : bool :=
+  if snd hb && acquires (fst hb) a then true else if snd hb && releases (fst hb) a then false else held.
+Fixpoint held_after (a : nat) (held : bool) (tr : list (hop * bool)) : bool :=
+  match tr with [] => held | hb :: r => held_after a (held_next a held hb) r end.
+(* every successful acquisition of a happens while a is not held, every successful release while it is held *)
+Fixpoint alternating (a : nat) (held : bool) (tr : list (hop * bool)) : Prop :=
+  match tr with
+  | [] => True
+  | hb :: r => (snd hb && acquires (fst hb) a = true -> held = false) /\
+               (snd hb && releases (fst hb) a = true -> held = true) /\
+               alternating a (held_next a held hb) r
+  end.
+
+Definition CInv (c : rctx) (a : nat) (held : bool) : Prop :=
+  WFctx c /\ availb (c_reg c) a = known (c_reg c) a && negb held.
+
+Lemma known_same r r' x : r_index r' = r_index r -> known r' x = known r x.
+Proof. unfold known. intros ->. reflexivity. Qed.
+
+Lemma hstep_inv c h c' b a held :
+  CInv c a held -> hstep c h = (c', b) ->
+  CInv c' a (held_next a held (h, b)) /\
+  (b && acquires h a = true -> held = false) /\ (b && releases h a = true -> held = true).
+Proof.
+  intros [[W I] A] H. unfold held_next. cbn [fst snd].
+  assert (USE : forall x r', use_actor (c_reg c) x = (r', b) ->
+     CInv (mkRctx r' (c_idx c)) a (if b && Nat.eqb x a then true else held) /\ (b && Nat.eqb x a = true -> held = false)).
+  { intros x r' U. destruct (use_actor_spec _ _ _ _ W U) as [W' [Eb [Av [Ei Ea]]]].
+    assert (K : forall y, known r' y = known (c_reg c) y) by (intros; apply known_same; auto).
+    unfold CInv, WFctx. cbn [c_reg c_idx]. rewrite Av, K, A, (Nat.eqb_sym a x).
+    split; [split; [split; auto; intros y; rewrite K; auto|]|].
+    - destruct (b && Nat.eqb x a) eqn:E; cbn.
+      + rewrite andb_false_r. reflexivity.
+      + rewrite andb_true_r. reflexivity.
+    - intros E. apply andb_true_iff in E. destruct E as [-> E]. apply Nat.eqb_eq in E. subst x.
+      rewrite A in Eb. symmetry in Eb. apply andb_true_iff in Eb. destruct held; cbn in Eb; intuition congruence. }
+  destruct h as [[x|x|x|]|keep]; cbn [hstep rstep acquires releases] in *.
+  - destruct (use_actor (c_reg c) x) as [r' b'] eqn:U. inversion H; subst. destruct (USE x r' eq_refl) as [C N].
+    rewrite andb_false_r. split; auto. split; auto. discriminate.
+  - destruct (free_actor (c_reg c) x) as [r' b'] eqn:U. inversion H; subst. rewrite andb_false_r.
+    destruct (free_actor_spec _ _ _ _ W U) as [W' [Eb [Av [Ei Ea]]]].
+    assert (K : forall y, known r' y = known (c_reg c) y) by (intros; apply known_same; auto).
+    split; [|split; [discriminate|]].
+    + unfold CInv, WFctx. cbn [c_reg c_idx]. rewrite Av, K, A, (Nat.eqb_sym a x). split; [split; auto; intros y; rewrite K; auto|].
+      destruct (b && Nat.eqb x a) eqn:E; cbn.
+      * apply andb_true_iff in E. destruct E as [-> E]. apply Nat.eqb_eq in E. subst x.
+        symmetry in Eb. apply andb_true_iff in Eb. destruct Eb as [-> _]. rewrite orb_true_r. reflexivity.
+      * rewrite orb_false_r. reflexivity.
+    + intros E. apply andb_true_iff in E. destruct E as [-> E]. apply Nat.eqb_eq in E. subst x.
+      symmetry in Eb. apply andb_true_iff in Eb. destruct Eb as [Kn Nv]. rewrite A, Kn in Nv. destruct held; auto.
+  - destruct (get_route_spec c x c' b (conj W I) H) as [r' [U ->]]. destruct (USE x r' U) as [C N].
+    rewrite andb_false_r. split; auto. split; auto. discriminate.
+  - inversion H; subst. cbn. split; [split; [split|]; auto|split; discriminate].
+  - inversion H; subst. cbn. split; [|split; discriminate].
+    destruct (deep_slice_spec (c_reg c) (fun a => set_mem a keep) W) as [W' [Av [Kn _]]].
+    unfold CInv, WFctx, ctx_slice. cbn [c_reg c_idx]. split; [split; auto|].
+    + intros y. rewrite Kn, set_mem_filter, I. reflexivity.
+    + rewrite Av, Kn, A. destruct (known (c_reg c) a), held, (set_mem a keep); reflexivity.
+Qed.
+
+Lemma hrun_inv hs : forall c c' tr a held,
+  CInv c a held -> hrun c hs = (c', tr) -> CInv c' a (held_after a held tr) /\ alternating a held tr.
+Proof.
+  induction hs as [|h hs IH]; intros c c' tr a held C H; cbn in H.
+  - inversion H; subst. cbn. auto.
+  - destruct (hstep c h) as [c1 b] eqn:S. destruct (hrun c1 hs) as [c2 tr2] eqn:R. inversion H; subst.
+    destruct (hstep_inv _ _ _ _ _ _ C S) as [C1 [N1 N2]]. destruct (IH _ _ _ _ _ C1 R) as [C2 AL].
+    cbn [held_after alternating fst snd]. auto.
+Qed.
+
+Theorem registry_history gs hs c tr a :
+  hrun (rctx_new gs) hs = (c, tr) ->
+  WFReg (c_reg c) /\ alternating a false tr /\
+  (In a (available (c_reg c)) <-> In a (r_all (c_reg c)) /\ held_after a false tr = false).
+Proof.
+  intros H. assert (C0 : CInv (rctx_new gs) a false).
+  { split; [apply rctx_new_wf|]. cbn [rctx_new c_reg]. destruct (reg_new_all_free gs a) as [-> ->].
+    rewrite andb_true_r. reflexivity. }
+  destruct (hrun_inv hs _ _ _ _ _ C0 H) as [[[W I] A] AL]. split; auto. split; auto.
+  rewrite (available_iff _ _ W), A. destruct W as [_ [_ [_ W4]]]. rewrite W4, andb_true_iff, negb_true_iff. tauto.
+Qed.
+
+(* ---- registry slots: copies and slices are independent of their originals *)
+Lemma rsstep_frame cs o cs' r k :
+  rsstep cs o = Some (cs', r, k) -> forall k', k' <> k -> k' < length cs -> nth_error cs' k' = nth_error cs k'.
+Proof.
+  intros H k' N L. destruct o as [k0 o|k0|k0 keep]; cbn in H; destruct (nth_error cs k0) as [c|]; try discriminate.
+  - destruct (rstep c o) as [c1 b]. inversion H; subst. apply set_nth_other; auto.
+  - inversion H; subst. apply nth_error_app1; auto.
+  - inversion H; subst. apply nth_error_app1; auto.
+Qed.
+Lemma rsstep_copy cs k cs' r n :
+  rsstep cs (RSCopy k) = Some (cs', r, n) -> n = length cs /\ nth_error cs' n = nth_error cs k /\ nth_error cs k <> None.
+Proof.
+  cbn. destruct (nth_error cs k) as [c|] eqn:E; [|discriminate]. intros H; inversion H; subst. split; auto.
+  rewrite nth_error_app2, Nat.sub_diag by auto. split; [reflexivity|discriminate].
+Qed.
+Lemma rsstep_wf cs o cs' r k : Forall WFctx cs -> rsstep cs o = Some (cs', r, k) -> Forall WFctx cs'.
+Proof.
+  intros F H. destruct o as [k0 o|k0|k0 keep]; cbn in H; destruct (nth_error cs k0) as [c|] eqn:E; try discriminate;
+    assert (Wc : WFctx c) by (rewrite Forall_forall in F; apply F; eapply nth_error_In; eauto).
+  - destruct (rstep c o) as [c1 b] eqn:S. inversion H; subst. apply set_nth_Forall; auto.
+    assert (C : CInv c 0 (negb (availb (c_reg c) 0))).
+    { split; auto. rewrite negb_involutive. destruct (availb (c_reg c) 0) eqn:A; [rewrite (availb_known _ _ A)|rewrite andb_false_r]; reflexivity. }
+    destruct (hstep_inv c (HOp o) c1 b 0 _ C S) as [[W _] _]. auto.
+  - inversion H; subst. apply Forall_app. split; auto.
+  - inversion H; subst. apply Forall_app. split; auto. constructor; auto.
+    assert (C : CInv c 0 (negb (availb (c_reg c) 0))).
+    { split; auto. rewrite negb_involutive. destruct (availb (c_reg c) 0) eqn:A; [rewrite (availb_known _ _ A)|rewrite andb_false_r]; reflexivity. }
+    destruct (hstep_inv c (HSlice keep) _ false 0 _ C eq_refl) as [[W _] _]. auto.
 Qed.
